@@ -53,6 +53,10 @@ def o_coq(o) -> str:
     return f"(OBool {gbool(o[1])} {glist(o[2], o_coq)})"
 
 
+def gval(v) -> str:
+    return f"(VB {gbool(v)})" if isinstance(v, bool) else f"(VI {gz(v)})"
+
+
 def r_coq(r) -> str:
     if r[0] == "const":
         return f"(RConst {gbool(r[1])})"
@@ -61,13 +65,28 @@ def r_coq(r) -> str:
     return "RNone"
 
 
-def impl_bound(mods, isand, vs):
-    """Run the real generator on `y = <formula>` and read what it yields for the top BoolOp."""
+def bound_source(isand, vs, ctx) -> str:
+    """ctx = True: only the truth value of the formula is used (an `if` test); False: the value is used"""
+    f = o_text(("bool", isand, vs), top=True)
+    return f"if {f}:\n    pass\n" if ctx else f"y = {f}\n"
+
+
+def top_expr(tree):
+    s = tree.body[0]
+    return s.test if isinstance(s, ast.If) else s.value
+
+
+def o_has_var(o) -> bool:
+    return o[0] == "var" or (o[0] == "not" and o_has_var(o[1])) or (o[0] == "bool" and any(o_has_var(v) for v in o[2]))
+
+
+def impl_bound(mods, isand, vs, ctx=False):
+    """Run the real generator on `y = <formula>` / `if <formula>: pass` and read what it yields for the top BoolOp."""
     core, sm = mods["core"], mods["symbolic_math"]
-    source = "y = " + o_text(("bool", isand, vs), top=True) + "\n"
+    source = bound_source(isand, vs, ctx)
     with common.quiet():
         root = core.parse(source)
-        top = root.body[0].value
+        top = top_expr(root)
         assert isinstance(top, ast.BoolOp) and len(top.values) == len(vs), source
         res = ("none",)
         for item in sm.simplify_boolean_expressions._fix_func(source):
@@ -85,12 +104,15 @@ def impl_bound(mods, isand, vs):
     return source, res
 
 
+PVALS = (0, 3)      # values of the bare names p0..p2: integers (the property's quantifier), falsy and truthy
+
+
 def eval_all(expr_src: str, nvars=2):
-    """Value of an expression for every valuation of x,y,z in the box and p0..p2 in {False, True}."""
+    """Value of an expression for every valuation of x,y in the box and p0..p2 in PVALS."""
     code = compile(expr_src, "<f>", "eval")
     out = []
     for x, y in itertools.product(BOX, repeat=2):
-        for p in itertools.product([False, True], repeat=3):
+        for p in itertools.product(PVALS, repeat=3):
             env = {"x": x, "y": y, "z": 0, "p0": p[0], "p1": p[1], "p2": p[2]}
             try:
                 out.append(eval(code, {"__builtins__": {}}, env))
@@ -99,19 +121,28 @@ def eval_all(expr_src: str, nvars=2):
     return out
 
 
+def expr_text(program: str) -> str:
+    return ast.unparse(top_expr(ast.parse(program)))
+
+
 def property_fails(mods, source: str, rule) -> dict | None:
-    """The property's own oracle on the real rule: same value before/after for every valuation."""
+    """The property's own oracle on the real rule: same VALUE before/after for every valuation where the
+    value is used (`y = ...`), same truth value where only that is used (`if ...:`)."""
     with common.quiet():
         new = rule(source)
     if new == source:
         return None
-    before = eval_all(source[4:].strip())
+    truth_only = source.startswith("if ")
+    before = eval_all(expr_text(source))
     try:
-        after = eval_all(new[4:].strip())
+        after = eval_all(expr_text(new))
     except SyntaxError:
         return {"source": source, "output": new, "problem": "output does not parse"}
     for b, a in zip(before, after):
-        if b != a or type(b) is not type(a):
+        if truth_only:
+            if isinstance(b, tuple) or isinstance(a, tuple) or bool(b) != bool(a):
+                return {"source": source, "output": new, "problem": f"truth value differs: {b!r} vs {a!r}"}
+        elif b != a or type(b) is not type(a):
             return {"source": source, "output": new, "problem": f"value differs: {b!r} vs {a!r}"}
     return None
 
@@ -756,26 +787,46 @@ def check(run: common.Run):
     # ---- bound table / BoolOp branch
     cases, n_pairs = bound_cases(run.tier, rnd)
     items, distinct = [], set()
-    for isand, vs in cases:
-        try:
-            source, res = impl_bound(mods, isand, vs)
-        except Exception as e:  # noqa
-            res, source = ("crash", type(e).__name__), "y = " + o_text(("bool", isand, vs), top=True)
-        items.append((isand, vs, res, source))
-        hist["bound:" + res[0]] += 1
-        if res[0] != "none":
-            distinct.add(source)
+    for j, (isand, vs) in enumerate(cases):
+        # formulas with a bare name among the operands: both contexts (the value-context guard decides);
+        # comparison-only formulas are boolean valued, the context cannot matter: alternate
+        for ctx in ((False, True) if any(o_has_var(v) for v in vs) else (j % 2 == 1,)):
+            try:
+                source, res = impl_bound(mods, isand, vs, ctx)
+            except Exception as e:  # noqa
+                res, source = ("crash", type(e).__name__), bound_source(isand, vs, ctx)
+            items.append((isand, vs, res, source, ctx))
+            hist["bound:" + res[0] + (":truth-ctx" if ctx else ":value-ctx")] += 1
+            if res[0] != "none":
+                distinct.add(source)
     files, shards = [], []
     SH = 500
     for k in range(0, len(items), SH):
         shard = items[k:k + SH]
-        body = ";\n ".join(f"(mkBCase {gbool(i)} {glist(vs, o_coq)} {r_coq(r)})" for (i, vs, r, _) in shard)
+        body = ";\n ".join(f"(mkBCase {gbool(c)} {gbool(i)} {glist(vs, o_coq)} {r_coq(r)})" for (i, vs, r, _, c) in shard)
         p = wd / f"bound_{k // SH}.v"
         p.write_text("From Coq Require Import List ZArith.\nImport ListNotations.\nOpen Scope Z_scope.\n"
                      "Require Import Pyrefact.Base Pyrefact.BoundModel.\n"
                      f"Definition cases : list bound_case := [\n {body}\n].\n"
                      "Eval vm_compute in (bad_idx bound_case_ok cases).\n")
         files.append(p); shards.append(shard)
+
+    # ---- reference semantics: BoundModel.opval (the VALUE of and/or/not/comparisons) vs CPython
+    ov = []
+    for (isand, vs, res, source, ctx) in items[3::7][:700] + [it for it in items if any(o_has_var(v) for v in it[1])][:300]:
+        code = compile(o_text(("bool", isand, vs), top=True), "<o>", "eval")
+        for xs, pv in (((1, 0, 0), (0, 3, 0)), ((2, 3, 0), (3, 0, 3)), ((0, -1, 0), (True, 3, 0))):
+            v = eval(code, {"__builtins__": {}}, {"x": xs[0], "y": xs[1], "z": xs[2], "p0": pv[0], "p1": pv[1], "p2": pv[2]})
+            ov.append((("bool", isand, vs), xs, pv, v))
+    for k in range(0, len(ov), 1000):
+        shard = ov[k:k + 1000]
+        body = ";\n ".join(f"({o_coq(o)}, {glist(xs, gz)}, {glist(pv, gval)}, {gval(v)})" for (o, xs, pv, v) in shard)
+        p = wd / f"opval_{k // 1000}.v"
+        p.write_text("From Coq Require Import List ZArith.\nImport ListNotations.\nOpen Scope Z_scope.\n"
+                     "Require Import Pyrefact.Base Pyrefact.BoundModel.\n"
+                     f"Definition cases : list (operand * list Z * list val * val) := [\n {body}\n].\n"
+                     "Eval vm_compute in (bad_idx opval_case_ok cases).\n")
+        files.append(p); shards.append([("opval", o_text(o, top=True), xs, pv, repr(v)) for (o, xs, pv, v) in shard])
 
     # ---- negate
     ncases = negate_cases(run.tier, rnd)
@@ -849,7 +900,7 @@ def check(run: common.Run):
     rule = mods["symbolic_math"].simplify_boolean_expressions
     failures = []
     seen_src = set()
-    for (isand, vs, res, source) in items:
+    for (isand, vs, res, source, _ctx) in items:
         if source in seen_src or res[0] in ("none",):
             continue
         seen_src.add(source)
